@@ -486,7 +486,9 @@ theorem evalImpl_lift (hrefl : ∀ s, R s s) (htrans : ∀ a b c, R a b → R b 
       · cases h
       · rename_i hs
         split at h
-        · cases h
+        · split at h
+          · split at h <;> cases h
+          · cases h
         · split at h
           · cases h
           · rename_i its st1 he
@@ -502,7 +504,9 @@ theorem evalImpl_lift (hrefl : ∀ s, R s s) (htrans : ∀ a b c, R a b → R b 
       · cases h
       · rename_i hs
         split at h
-        · cases h
+        · split at h
+          · split at h <;> cases h
+          · cases h
         · split at h
           · cases h
           · rename_i its st1 he
@@ -565,7 +569,9 @@ theorem evalImpl_dyn_logs {rec : Rec} {root : Node} {w : World} {rs : Bool} {n :
       split at h
       · cases h
       · split at h
-        · cases h
+        · split at h
+          · split at h <;> cases h
+          · cases h
         · split at h
           · cases h
           · split at h
@@ -579,7 +585,9 @@ theorem evalImpl_dyn_logs {rec : Rec} {root : Node} {w : World} {rs : Bool} {n :
       split at h
       · cases h
       · split at h
-        · cases h
+        · split at h
+          · split at h <;> cases h
+          · cases h
         · split at h
           · cases h
           · split at h
